@@ -139,7 +139,7 @@ def jobs_c14(prop, tier, seed):
         execs += [api_exec(rng, rng.choice([2, 3, 4])) for _ in range(30 * s)]
         execs += [par_exec(rng, rng.choice([2, 3, 4])) for _ in range(40 * s)]
         execs += [race_exec(rng) for _ in range(60 * s)]
-        J.append(Job(cfg, "temp", "TempTrace", execs, "temp"))
+        J.append(Job(cfg, "temp", "TempTrace", execs, "temp", also=("TempListTrace",)))
     return J
 
 
